@@ -1,6 +1,7 @@
 package cycle
 
 import (
+	"encoding/json"
 	"fmt"
 	"sort"
 	"strings"
@@ -222,7 +223,144 @@ func reg(id string, w cyc.Which, g Gen, rule string) {
 
 const cycleRule = "one real coordination cycle per run over a generated scenario (options, 1-5 shards with readiness/request outcomes/config-hash relation/load reports, 1-8 targets with copy patterns incl. duplicates, pending and stuck transfers, explorer results) under a drawn completion order of the parallel requests, drawn map-iteration permutation and math/rand seed; "
 
+type c19Reporter struct{ e *core.Env }
+
+func (r c19Reporter) Report(prop, clause, sig, msg string) {
+	r.e.Violate("per-replica", prop+"/"+clause, "with two replicas, %s of %s is violated: %s", clause, prop, msg)
+}
+
+// replicaLog renders everything that was sent to one replica.
+func replicaLog(tr *cyc.CycleTrace, id string) []string {
+	var out []string
+	for _, r := range tr.Replicas {
+		if r.ID != id {
+			continue
+		}
+		for _, s := range r.Shards {
+			for _, c := range s.Calls {
+				out = append(out, fmt.Sprintf("%s %s %s %s body=%s", s.ID, c.Method, c.Path, c.Verdict, canonBody(c.ReqBody)))
+			}
+		}
+		for _, x := range r.Scale {
+			out = append(out, fmt.Sprintf("scale %d", x.Value))
+		}
+	}
+	return out
+}
+
+// canonBody: target lists inside one job may legitimately come in any order
+func canonBody(b []byte) string {
+	var v interface{}
+	if len(b) == 0 || json.Unmarshal(b, &v) != nil {
+		return string(b)
+	}
+	var canon func(x interface{}) interface{}
+	canon = func(x interface{}) interface{} {
+		switch t := x.(type) {
+		case map[string]interface{}:
+			for k, vv := range t {
+				t[k] = canon(vv)
+			}
+			return t
+		case []interface{}:
+			ss := make([]string, len(t))
+			for i, vv := range t {
+				bb, _ := json.Marshal(canon(vv))
+				ss[i] = string(bb)
+			}
+			sort.Strings(ss)
+			out := make([]interface{}, len(ss))
+			for i, x := range ss {
+				out[i] = json.RawMessage(x)
+			}
+			return out
+		}
+		return x
+	}
+	bb, _ := json.Marshal(canon(v))
+	return string(bb)
+}
+
+func otherClass(sc *Scenario, ri int) string {
+	r := sc.Replicas[ri]
+	switch {
+	case r.ListErr:
+		return "list-fails"
+	case r.ScaleErrEarly || r.ScaleErrFinal:
+		return "scale-fails"
+	}
+	ready := 0
+	for _, s := range r.Shards {
+		if s.Ready && s.StatusFail == "" && s.RuntimeFail == "" && !s.HashDiff {
+			ready++
+		}
+	}
+	if ready == 0 {
+		return "nothing-in-sync"
+	}
+	return "coordinated"
+}
+
+func c19Run(tp *core.Tape, e *core.Env) {
+	sc := Generate(tp, Gen{Replicas: 2, ReqFaults: true, ReplicaErrs: true, MaxShards: 4})
+	both := Run(tp, e, sc, []int{0, 1})
+	e.AddSim(both.Elapsed + 10*time.Second)
+	if both.Trace.Panic != "" || both.Trace.Deadlock {
+		if fr := core.TopKvassFrame(both.Trace.Panic); fr != "" || both.Trace.Deadlock {
+			e.Violate("crash", "frame="+fr, "cycle with two replicas crashed or hung: %s", both.Trace.Panic)
+		} else {
+			e.Undecided("panic outside kvass: %s", both.Trace.Panic)
+		}
+		return
+	}
+	cyc.Check(both.Trace, cyc.All(), c19Reporter{e})
+	for _, ri := range []int{1, 0} {
+		alone := Run(tp, e, sc, []int{ri})
+		id := fmt.Sprintf("r%d", ri)
+		a, b := replicaLog(both.Trace, id), replicaLog(alone.Trace, id)
+		if strings.Join(a, "\n") != strings.Join(b, "\n") {
+			what := "requests"
+			first := ""
+			for i := 0; i < len(a) || i < len(b); i++ {
+				var x, y string
+				if i < len(a) {
+					x = a[i]
+				}
+				if i < len(b) {
+					y = b[i]
+				}
+				if x != y {
+					first = fmt.Sprintf("with the other replica: %q; alone: %q", x, y)
+					if strings.HasPrefix(x, "scale") || strings.HasPrefix(y, "scale") {
+						what = "scale"
+					} else if strings.Contains(x, "shard/targets") || strings.Contains(y, "shard/targets") {
+						what = "target-update"
+					}
+					break
+				}
+			}
+			pos := "second"
+			if ri == 0 {
+				pos = "first"
+			}
+			e.Violate("depends-on-other-replica", "differs="+what+",other="+otherClass(sc, 1-ri)+",position="+pos,
+				"what replica %s is sent differs with and without the other replica: %s", id, first)
+		}
+		e.Key("other="+otherClass(sc, 1-ri), "self="+otherClass(sc, ri), fmt.Sprintf("requests=%d", len(a) > 0))
+	}
+	countFaults(e, sc)
+	probes(e, both.Trace, both)
+	e.SetSample(sample(sc, both))
+}
+
 func init() {
+	core.Register(&core.Spec{
+		ID: "C19", Engine: "cycle", Run: c19Run,
+		QuickRuns: 30000, ThorRuns: 1000000, QuickCap: 60 * time.Second, ThorCap: 12 * time.Minute,
+		Rule: "differential: the same generated two-replica scenario is run as [A,B], [B] and [A] with per-replica schedules (release order, map permutation salt, math/rand seed are functions of the replica's own seed), and everything sent to a replica's shards and shard manager must be identical; every C01/C04/C05/C07/C08 oracle is also evaluated per replica on the two-replica trace; a case is (state class of the other replica: list-fails/scale-fails/nothing-in-sync/coordinated) x (own class) x (received requests?)",
+		Real: realCycle, Stub: stubCycle,
+		Assume: []string{"replicas are coordinated one after another in the order the replicas manager lists them (so a per-replica re-seed at listing time gives each replica its own schedule)"},
+	})
 	reg("C04", cyc.Which{C04: true}, Gen{Replicas: 1, ReqFaults: true}, cycleRule+"a case is one (target copy pattern, scrape classes, active?) x (decision: placed/removed/restate); trivial = nothing placed, moved or removed")
 	reg("C05", cyc.Which{C05: true}, Gen{Replicas: 1, ReqFaults: true}, cycleRule+"a case is one (target copy pattern incl. scrape classes of source and destination) x decision; trivial = no copy in transfer and no move")
 	reg("C07", cyc.Which{C07: true}, Gen{Replicas: 1, ReqFaults: true}, cycleRule+"a case is one (target copy pattern) x decision, plus every scale request is checked; trivial = untouched target")
